@@ -417,7 +417,8 @@ package logqlengine
 //@   loop 0 body_ensures[entry-goes-to-the-stream-of-its-labels] nx_r0 && sk_called && has(streams, sk_r0) && len(streams[sk_r0].Values) == head(len(streams[sk_r0].Values)) + 1
 //@   loop 0 body_ensures[entry-keeps-timestamp-and-line] streams[sk_r0].Values[len(streams[sk_r0].Values)-1].T == uint64(e.ts) && streams[sk_r0].Values[len(streams[sk_r0].Values)-1].V == e.line
 //@   loop 0 body_ensures[stream-created-with-the-entry-labels] la_called == !head(has(streams, sk_r0))
-//@   loop 1 body_ensures[every-stream-sorted-by-time] ss_called && same(ss_a0, stream.Values)
+//@   loop 1 body_ensures[every-stream-sorted-by-time] ss_called && same(ss_a0, stream.Values) && same(stream, result[rangeindex])
+//@   loop 1 exit_ensures[every-stream-visited] rangeindex >= len(result)
 //@   modifies *
 //@   ensures[source-error-surfaces] ie_called && ie_r0 != nil ==> ret1 != nil
 //@   ensures[source-kept] same(iter.iter, old(iter.iter))
